@@ -366,6 +366,13 @@ func (inst *VerifInstance) VerifQuery(text string, optimize bool) (result *Verif
 
 		return result
 	}
+	if req.Command != "" {
+		// commands are not answered by BuildResponse (ClientConnection.processRequests queues them); see VerifSession
+		result.Code = 202
+		result.Reprint = req.String()
+
+		return result
+	}
 	result.Reprint = req.String()
 	res, err := req.BuildResponse(ctx)
 	if err != nil {
